@@ -56,6 +56,8 @@ pub struct Applied {
     pub out_bytes: Vec<u8>,
     pub req_bytes: Vec<u8>,
     pub divergence: Option<String>,
+    /// seconds the clock was advanced (tick commands)
+    pub tick_secs: Option<u64>,
 }
 
 pub struct Runner<'a> {
@@ -115,6 +117,7 @@ impl<'a> Runner<'a> {
             out_bytes: vec![],
             req_bytes: vec![],
             divergence: None,
+            tick_secs: None,
         };
         self.model.settle();
         ap.state_class = state_class(&self.model, cmd.key());
@@ -130,6 +133,7 @@ impl<'a> Runner<'a> {
                         return ap;
                     }
                     self.world.clock.advance(d);
+                    ap.tick_secs = Some(d);
                     let obs = Observed::default();
                     let fixed = Cmd::Tick(crate::cmd::Tick::Plus(d));
                     let ctx = StepCtx { cmd: &fixed, cas: 0, opaque: 0, obs: &obs, before: &[], after: &[] };
@@ -635,4 +639,75 @@ pub fn replay_history(cfg: &SeqCfg, h: &Hist) -> Result<Vec<String>, String> {
     let dump: Vec<DumpItem> = r.world.dump();
     lines.push(format!("final dump: {:?} cas_counter={} usage={:?}", dump, r.world.cas_counter(), r.world.usage()));
     Ok(lines)
+}
+
+/// Binding to the deployed path: replays histories through a real `MemcacheTcpServer` on loopback
+/// (E4 world) and compares the response bytes of every command with the in-process run.
+/// Returns (histories validated, first mismatch per command kind).
+pub fn bind_to_socket(cfg: &SeqCfg, tree: &[Hist], threads: usize) -> (u64, Vec<(String, String)>, Option<String>) {
+    use crate::net::{NetCfg, NetWorld};
+    let results = crate::check_c09::par_map(tree, threads, |_, h| -> Result<Option<(String, String)>, String> {
+        if h.is_empty() {
+            return Ok(None);
+        }
+        let mut r = Runner::new(cfg);
+        let w = NetWorld::new(NetCfg { item_limit: cfg.sut.item_limit, policy: cfg.sut.policy, ..Default::default() })?;
+        w.clock.set(cfg.start_time);
+        let mut c = w.connect()?;
+        for (i, e) in h.iter().enumerate() {
+            let ap = r.apply(e.cmd as usize, &e.choices);
+            if !ap.applicable {
+                return Err("replay divergence in binding".into());
+            }
+            if ap.pruned {
+                break; // panics / decode errors are reported by the in-process exploration
+            }
+            if let Some(d) = ap.tick_secs {
+                w.clock.advance(d);
+                continue;
+            }
+            let before = c.got.len();
+            explore::begin(e.choices.iter().map(|x| *x as usize).collect());
+            let sent = c.step(&w, &ap.req_bytes);
+            let _ = explore::end();
+            if sent.is_err() {
+                return Ok(Some((
+                    format!("socket-path-differs|{}", cfg.alphabet[e.cmd as usize].kind()),
+                    format!("connection lost at command #{} of [{}]", i, hist_text(cfg, h).join(" ; ")),
+                )));
+            }
+            let got = &c.got[before..];
+            if got != &ap.out_bytes[..] {
+                let (a, _) = wire::split_responses(&ap.out_bytes);
+                let (b, _) = wire::split_responses(got);
+                return Ok(Some((
+                    format!("socket-path-differs|{}", cfg.alphabet[e.cmd as usize].kind()),
+                    format!(
+                        "command #{} of [{}]: in-process {:?} / over TCP {:?}",
+                        i,
+                        hist_text(cfg, h).join(" ; "),
+                        a.iter().map(|x| x.short()).collect::<Vec<_>>(),
+                        b.iter().map(|x| x.short()).collect::<Vec<_>>()
+                    ),
+                )));
+            }
+        }
+        Ok(None)
+    });
+    let mut n = 0u64;
+    let mut bad: Vec<(String, String)> = vec![];
+    let mut mach = None;
+    for r in results {
+        match r {
+            Ok(None) => n += 1,
+            Ok(Some(x)) => {
+                n += 1;
+                if !bad.iter().any(|b| b.0 == x.0) {
+                    bad.push(x);
+                }
+            }
+            Err(e) => mach = Some(e),
+        }
+    }
+    (n, bad, mach)
 }
